@@ -27,8 +27,38 @@ def _val(x):
     return _val(g()) if callable(g) else repr(x)[:80]
 
 
+SHARED = {}
+
+
+def fresh():
+    """Objects that threads share by design, created anew for every execution: the catalogue container of a settings object."""
+    import secsgem.secs.functions  # noqa: PLC0415
+
+    SHARED["sf"] = secsgem.secs.functions.StreamsFunctions()
+
+
 def resolve(desc):
     kind = desc[0]
+    if kind == "lookup_shared":  # look-ups and decodes through ONE container, as the protocol threads of one handler do
+        import secsgem.hsms  # noqa: PLC0415
+
+        if "sf" not in SHARED:
+            fresh()
+        sf = SHARED["sf"]
+        pairs_ = desc[1]
+
+        def f():
+            out = []
+            for st, fn in pairs_:
+                cls = sf.function(st, fn)
+                out.append(None if cls is None else cls.__name__)
+                header = secsgem.hsms.HsmsStreamFunctionHeader(1, st, fn, False, 0)
+                try:
+                    out.append(type(sf.decode(secsgem.hsms.HsmsMessage(header, b""))).__name__)
+                except Exception as exc:  # noqa: BLE001
+                    out.append(type(exc).__name__)
+            return out
+        return f
     if kind == "enc":  # variables API: build a typed value and encode it
         node = gen.node_from_desc(desc[1])
 
